@@ -633,8 +633,9 @@ class Manager:
         except KeyError:
             h = (self.getHandlers(event, channel) for channel in channels)
 
+            # a handler that matches several of the channels must still run once
             event_handlers = sorted(
-                chain(*h),
+                dict.fromkeys(chain(*h)),
                 key=attrgetter('priority'),
                 reverse=True,
             )
